@@ -56,6 +56,7 @@ SPEC = {
     "outside": ["comp_read's use of the step result (the caller's `< 0` test) and everything else in the read loop: not encodable within 16 GB; read by hand only", "real libzstd (codec-A stub: 1 marker byte + data; decoding fails on a wrong marker or wrong length)", "dictionaries (empty dictionary entry only)",
                 "more chunks / longer reads than the bound"],
     "assumptions": ["zmalloc/zrealloc replaced by env/padalloc.c (fixed-capacity buffers, logical size tracked and checked by env/mem.c): direct stores past the logical size are not flagged here", "context in the state zck_read_header leaves (C13)", "hash back end = env/hash_acc.c", "no I/O errors (C12)"],
+    "level_note": "h15u decides the chunk-end step for ALL stored bytes / digests / declared sizes; the h15q instances run the whole read path with sizes, file length, request sizes, frame markers and per-chunk verdicts concrete per instance and payload bytes symbolic (DESIGN.md section 7)",
     "harnesses": [
         _u,
         # whole read path with a concrete shape per instance (sizes, file length, request sizes, checksum verdicts); bytes symbolic
